@@ -228,6 +228,7 @@ class Skeleton:
     prologue: List[str] = field(default_factory=list)        # statements before StreamController::new that touch `s`
     body_group: Optional[Tok] = None
     fn_helpers: set = field(default_factory=set)
+    guarded_by_is_subscribed: bool = False
     pure_lets: list = field(default_factory=list)
     mut_on_read: set = field(default_factory=set)
     unknown_toks: list = field(default_factory=list)
@@ -294,6 +295,11 @@ def scan_create_closure(body: Tok, src: str, sk: Skeleton, create_param: str):
                 visit(st[0].kids)
                 continue
             txt = _text(src, st)
+            if st[0].is_id('if') and st[-1].is_group('{') and re.sub(r'\s+', '', _text(src, st[1:-1])) == '%s.is_subscribed()' % (create_param or ''):
+                # `if s.is_subscribed() { ..wiring.. }` : the wiring is guarded by the subscriber still listening (start_with)
+                sk.guarded_by_is_subscribed = True
+                visit(st[-1].kids)
+                continue
             if st[0].is_id('fn') and len(st) >= 3 and st[1].kind == 'ident' and st[-1].is_group('{'):
                 # nested fn item: lifted like a helper closure, with its own parameter list
                 pg = next((t for t in st[2:] if t.is_group('(')), None)
